@@ -16,7 +16,7 @@ func init() {
 	register(&RuleSet{
 		ID: "C03",
 		Explanation: "R1 same bytes: in endorse.SignDoc the bytes stored in the endorsement's SerializedUefiGolden and the operand of the SHA-256 whose result is signed are one SSA value, the result of the single proto.Marshal of the document; the signature stored is Signer.Sign's result; the verification core never re-serialises (C01.R1b). " +
-			"R2 parameter agreement (siblings): every rsa.PSSOptions literal in production code is {PSSSaltLengthEqualsHash, SHA-256}; every digest handed to Signer.Sign / rsa.SignPSS / rsa.VerifyPSS comes from sha256.Sum256; certificate templates and the verifier use x509.SHA256WithRSAPSS; KMS keys are created with RSA_SIGN_PSS_4096_SHA256; the documented openssl command (value of the constant format in OpensslVerifyShellCmd) names pss padding, salt length 32, sha256 digest and sha256 MGF1. " +
+			"R2 parameter agreement (siblings): every rsa.PSSOptions literal in production code is {PSSSaltLengthEqualsHash, SHA-256}; every digest handed to Signer.Sign / rsa.SignPSS / rsa.VerifyPSS comes from sha256.Sum256; certificate templates and the verifier use x509.SHA256WithRSAPSS; any extended key usage a template sets is acceptable to every x509 chain verification site of the repository (no KeyUsages = ServerAuth, Any matches all); KMS keys are created with RSA_SIGN_PSS_4096_SHA256; the documented openssl command (value of the constant format in OpensslVerifyShellCmd) names pss padding, salt length 32, sha256 digest and sha256 MGF1. " +
 			"R3 one key name: the key version handed to CA.Certificate, CA.CABundle and Signer.Sign in SignDoc is one value obtained from PrimarySigningKeyVersion. " +
 			"R4 raw output: InspectPayload / InspectSignature write the field bytes themselves (C19.R5). " +
 			"Not covered: that verification succeeds (runtime cryptography), validity windows, rotation histories, storage-backed versus in-memory authorities.",
@@ -174,6 +174,95 @@ func runC03(c *Ctx) {
 		}
 	}
 	c.S.Floor("R2", "certificate templates setting SignatureAlgorithm", 2, nt)
+	// extended key usage: what templates put into signing certificates must be acceptable to what the
+	// verifiers ask for (crypto/x509: no KeyUsages in VerifyOptions means ServerAuth; a certificate
+	// without the extension is good for every usage; ExtKeyUsageAny on either side matches all)
+	{
+		type ekuSite struct {
+			f    *ssa.Function
+			pos  token.Pos
+			set  map[int64]bool
+			what string
+		}
+		var templates, verifiers []ekuSite
+		for _, f := range c.P.RepoFunctions() {
+			if c.isTestFunc(f) {
+				continue
+			}
+			for _, b := range f.Blocks {
+				for _, in := range b.Instrs {
+					switch x := in.(type) {
+					case *ssa.Store:
+						fa, ok := x.Addr.(*ssa.FieldAddr)
+						if !ok || !flow.IsFieldLoad(fa, "crypto/x509", "Certificate", "ExtKeyUsage") {
+							continue
+						}
+						ks, ok := sliceLiteralConsts(x.Val)
+						if !ok {
+							c.S.Unk("R2", load.FuncName(f)+":template extended key usage", c.pos(x.Pos()), "extended key usage of a certificate template is not a literal list")
+							continue
+						}
+						if len(ks) == 0 {
+							continue
+						}
+						set := map[int64]bool{}
+						for _, k := range ks {
+							set[k] = true
+						}
+						templates = append(templates, ekuSite{f, x.Pos(), set, fmt.Sprint(ks)})
+					case *ssa.Call:
+						if !methodCallIs(x, "crypto/x509", "Certificate", "Verify") || isTestingPkg(load.RelPkg(f)) {
+							continue
+						}
+						// the VerifyOptions value: loaded from a local literal
+						set := map[int64]bool{1: true} // ExtKeyUsageServerAuth
+						what := "default (ServerAuth)"
+						if len(x.Call.Args) >= 2 {
+							if ld, ok := x.Call.Args[1].(*ssa.UnOp); ok {
+								if al, ok := ld.X.(*ssa.Alloc); ok {
+									for _, r := range nonDebugRefs(al) {
+										if fa, ok := r.(*ssa.FieldAddr); ok && flow.FieldName(fa) == "KeyUsages" {
+											for _, r2 := range nonDebugRefs(fa) {
+												if st, ok := r2.(*ssa.Store); ok {
+													if ks, ok := sliceLiteralConsts(st.Val); ok && len(ks) > 0 {
+														set = map[int64]bool{}
+														for _, k := range ks {
+															set[k] = true
+														}
+														what = fmt.Sprint(ks)
+													}
+												}
+											}
+										}
+									}
+								}
+							}
+						}
+						verifiers = append(verifiers, ekuSite{f, x.Pos(), set, what})
+					}
+				}
+			}
+		}
+		c.S.Floor("R2", "x509 chain verification sites", 2, len(verifiers))
+		bad := 0
+		for _, t := range templates {
+			for _, v := range verifiers {
+				okk := t.set[0] || v.set[0]
+				for k := range t.set {
+					if v.set[k] {
+						okk = true
+					}
+				}
+				if !okk {
+					bad++
+					c.S.Bad("R2", load.FuncName(t.f)+":template extended key usage vs "+load.FuncName(v.f), c.pos(t.pos), fmt.Sprintf("the template restricts the certificate to extended key usages %s, but %s (%s) verifies chains asking for %s: every certificate issued from this template is rejected there", t.what, load.FuncName(v.f), c.pos(v.pos), v.what))
+				}
+			}
+		}
+		if bad == 0 {
+			c.S.OK("R2", "certificate templates ↔ chain verifiers:extended key usage", "", fmt.Sprintf("%d templates set an extended key usage; each is acceptable to all %d chain verification sites", len(templates), len(verifiers)), false)
+		}
+	}
 	// KMS algorithm
 	wantKms := c.extConst(kmspbPkg, "CryptoKeyVersion_RSA_SIGN_PSS_4096_SHA256")
 	nk := 0
@@ -239,4 +328,37 @@ func rawOperandPath(c *Ctx, f *ssa.Function) string {
 		}
 	}
 	return ""
+}
+
+// sliceLiteralConsts: v is nil or a slice literal of integer constants
+// (new [n]T; element stores; slice) — returns the constants.
+func sliceLiteralConsts(v ssa.Value) ([]int64, bool) {
+	if isNilK(v) {
+		return nil, true
+	}
+	sl, ok := v.(*ssa.Slice)
+	if !ok {
+		return nil, false
+	}
+	al, ok := sl.X.(*ssa.Alloc)
+	if !ok {
+		return nil, false
+	}
+	var out []int64
+	for _, r := range nonDebugRefs(al) {
+		ia, ok := r.(*ssa.IndexAddr)
+		if !ok {
+			continue
+		}
+		for _, r2 := range nonDebugRefs(ia) {
+			if st, ok := r2.(*ssa.Store); ok && st.Addr == ssa.Value(ia) {
+				k, ok := constInt(st.Val)
+				if !ok {
+					return nil, false
+				}
+				out = append(out, k)
+			}
+		}
+	}
+	return out, true
 }
